@@ -152,9 +152,10 @@ def Frag (env : Env) : Expr → Prop
   | .sym _ => True
   | .var k n => PlainId n ∧ resolvesTo env n k = true
   | .un _ a => Frag env a
-  | .bin op a b => op.isInfix = true ∧ Frag env a ∧ Frag env b
+  | .bin _ a b => Frag env a ∧ Frag env b
   | .field a => Frag env a
   | .call f as => PlainId f ∧ env.isVar f = false ∧ FragL env as
+  | .list as => FragL env as
   | _ => False
 def FragL (env : Env) : List Expr → Prop
   | [] => True
@@ -168,6 +169,7 @@ def fuelOf : Expr → Nat
   | .un _ a => fuelOf a + 2
   | .field a => fuelOf a + 4
   | .call _ as => fuelOfL as + 30
+  | .list as => fuelOfL as + 30
   | _ => 4
 def fuelOfL : List Expr → Nat
   | [] => 0
@@ -182,7 +184,7 @@ theorem prArgs_cons (e : Expr) (es : List Expr) : prArgs (e :: es) = prE e ++ pr
 /-- the first token of a printed expression is not a closing parenthesis -/
 def HeadNotRp : List Tok → Prop
   | [] => False
-  | t :: _ => t ≠ .p .rp
+  | t :: _ => t ≠ .p .rp ∧ t ≠ .p .rb ∧ t ≠ .p .colon
 
 theorem prE_head (e : Expr) (h : Frag env e) : HeadNotRp (prE e) := by
   cases e with
@@ -193,13 +195,12 @@ theorem prE_head (e : Expr) (h : Frag env e) : HeadNotRp (prE e) := by
   | var k n => simp [prE, HeadNotRp]
   | un op a => cases op <;> simp [prE, HeadNotRp, kw]
   | bin op a b =>
-    obtain ⟨hop, _, _⟩ : op.isInfix = true ∧ Frag env a ∧ Frag env b := h
-    simp [prE, hop, HeadNotRp]
+    cases hop : op.isInfix <;> simp [prE, hop, HeadNotRp, kw]
   | field a => simp [prE, HeadNotRp, kw]
   | call f as => simp [prE, HeadNotRp]
+  | list as => simp [prE, HeadNotRp]
   | me => exact absurd h (by simp [Frag])
   | mcall o m as => exact absurd h (by simp [Frag])
-  | list as => exact absurd h (by simp [Frag])
   | plist as => exact absurd h (by simp [Frag])
   | the t k as => exact absurd h (by simp [Frag])
   | key n => exact absurd h (by simp [Frag])
@@ -274,6 +275,42 @@ theorem pE5_var (f : Nat) (k : VarKind) (n : Name) (rest : List Tok) (hp : Plain
   · exact absurd hn (by simp [NoLp])
   · simp [hr]
 
+theorem pE5_sprite_i (f : Nat) (X r2 r3 : List Tok) (a b : Expr)
+    (h1 : pE5 env f X = some (a, kw "intersects" :: r2)) (h2 : pE5 env f r2 = some (b, r3)) :
+    pE5 env (f + 1) (kw "sprite" :: X) = some (.bin .intersects a b, r3) := by
+  have k1 : (Tok.id ['s','p','r','i','t','e']).kw "sprite" = true := by decide
+  have k2 : (Tok.id ['s','p','r','i','t','e']).kw "not" = false := by decide
+  have k3 : (Tok.id ['i','n','t','e','r','s','e','c','t','s']).kw "intersects" = true := by decide
+  simp [kw, pE5, k1, k2] at h1 ⊢
+  simp [h1, k3, h2]
+
+theorem pE5_sprite_w (f : Nat) (X r2 r3 : List Tok) (a b : Expr)
+    (h1 : pE5 env f X = some (a, kw "within" :: r2)) (h2 : pE5 env f r2 = some (b, r3)) :
+    pE5 env (f + 1) (kw "sprite" :: X) = some (.bin .within a b, r3) := by
+  have k1 : (Tok.id ['s','p','r','i','t','e']).kw "sprite" = true := by decide
+  have k2 : (Tok.id ['s','p','r','i','t','e']).kw "not" = false := by decide
+  have k3 : (Tok.id ['w','i','t','h','i','n']).kw "intersects" = false := by decide
+  have k4 : (Tok.id ['w','i','t','h','i','n']).kw "within" = true := by decide
+  simp [kw, pE5, k1, k2] at h1 ⊢
+  simp [h1, k3, k4, h2]
+
+theorem pE5_list0 (f : Nat) (r : List Tok) : pE5 env (f + 2) (.p .lb :: .p .rb :: r) = some (.list [], r) := by
+  simp [pE5, pSimple, kw_p]
+
+theorem pE5_list (f : Nat) (t : Tok) (ts r1 r2 : List Tok) (e : Expr) (es : List Expr)
+    (ht1 : t ≠ .p .rb) (ht2 : t ≠ .p .colon)
+    (h1 : pLevel env f 1 (t :: ts) = some (e, r1)) (hr1 : ∀ x, r1 ≠ .p .colon :: x)
+    (h2 : pMore env f r1 = some (es, .p .rb :: r2)) :
+    pE5 env (f + 2) (.p .lb :: t :: ts) = some (.list (e :: es), r2) := by
+  simp only [pE5, kw_p]
+  simp only [pSimple]
+  simp
+  split
+  · rename_i heq; injection heq with h _; exact absurd h ht1
+  · rename_i heq; injection heq with h _; exact absurd h ht2
+  · simp only [h1]
+    simp [h2]
+
 mutual
 /-- the level-5 reader inverts the printer on the fragment -/
 theorem rp_e5 : ∀ (e : Expr), Frag env e → ∀ (rest : List Tok), NoLp rest → ∀ F, fuelOf e ≤ F →
@@ -307,21 +344,35 @@ theorem rp_e5 : ∀ (e : Expr), Frag env e → ∀ (rest : List Tok), NoLp rest 
     obtain ⟨f, rfl⟩ : ∃ f, F = f + 2 := ⟨F - 2, by simp [fuelOf] at hF; omega⟩
     simpa [prE] using pE5_field env f _ a rest (rp_e5 a ha rest hn f (by simp [fuelOf] at hF; omega))
   | .bin op a b, h, rest, hn, F, hF => by
-    obtain ⟨hop, ha, hb⟩ : op.isInfix = true ∧ Frag env a ∧ Frag env b := h
-    obtain ⟨f, rfl⟩ : ∃ f, F = f + 2 := ⟨F - 2, by simp [fuelOf] at hF; omega⟩
-    have hlv := level_range op hop
-    have hA : ∀ F', fuelOf a + 6 ≤ F' →
-        pLevel env F' (op.level + 1) (prE a ++ op.tok :: (prE b ++ .p .rp :: rest)) = some (a, op.tok :: (prE b ++ .p .rp :: rest)) :=
-      level_of_e5 env a _ (fuelOf a) (fun F' hF' => rp_e5 a ha _ (nolp_optok op _) F' hF') (op.level + 1) (by omega) (by omega)
-        (follow_tok_of_infix op hop _)
-    have hB : ∀ F', fuelOf b + 6 ≤ F' → pLevel env F' (op.level + 1) (prE b ++ .p .rp :: rest) = some (b, .p .rp :: rest) :=
-      level_of_e5 env b _ (fuelOf b) (fun F' hF' => rp_e5 b hb _ (nolp_closer _ _ (Or.inl rfl)) F' hF') (op.level + 1) (by omega) (by omega)
-        (follow_closer _ _ _ (Or.inl rfl))
-    have hin := read_infix env op hop a b (prE a) (prE b) (.p .rp :: rest) (fuelOf a + fuelOf b + 6)
-      (fun F' hF' => hA F' (by omega)) (fun F' hF' => hB F' (by omega)) (follow_closer _ _ _ (Or.inl rfl))
-      (op.level - 1) 1 (by omega) (Nat.le_refl 1) f (by simp [fuelOf] at hF; omega)
-    have := pE5_lp env f _ (.bin op a b) rest hin
-    simpa [prE, hop] using this
+    obtain ⟨ha, hb⟩ : Frag env a ∧ Frag env b := h
+    cases hop : op.isInfix with
+    | false =>
+      -- `sprite a intersects b` / `sprite a within b`
+      obtain ⟨f, rfl⟩ : ∃ f, F = f + 1 := ⟨F - 1, by simp [fuelOf] at hF; omega⟩
+      have hfa : fuelOf a ≤ f := by simp [fuelOf] at hF; omega
+      have hfb : fuelOf b ≤ f := by simp [fuelOf] at hF; omega
+      cases op <;> simp [BinOp.isInfix] at hop
+      · have h1 := rp_e5 a ha (kw "intersects" :: (prE b ++ rest)) (by simp [kw, NoLp]) f hfa
+        have h2 := rp_e5 b hb rest hn f hfb
+        simpa [prE, BinOp.isInfix, BinOp.tok] using pE5_sprite_i env f _ _ rest a b h1 h2
+      · have h1 := rp_e5 a ha (kw "within" :: (prE b ++ rest)) (by simp [kw, NoLp]) f hfa
+        have h2 := rp_e5 b hb rest hn f hfb
+        simpa [prE, BinOp.isInfix, BinOp.tok] using pE5_sprite_w env f _ _ rest a b h1 h2
+    | true =>
+      obtain ⟨f, rfl⟩ : ∃ f, F = f + 2 := ⟨F - 2, by simp [fuelOf] at hF; omega⟩
+      have hlv := level_range op hop
+      have hA : ∀ F', fuelOf a + 6 ≤ F' →
+          pLevel env F' (op.level + 1) (prE a ++ op.tok :: (prE b ++ .p .rp :: rest)) = some (a, op.tok :: (prE b ++ .p .rp :: rest)) :=
+        level_of_e5 env a _ (fuelOf a) (fun F' hF' => rp_e5 a ha _ (nolp_optok op _) F' hF') (op.level + 1) (by omega) (by omega)
+          (follow_tok_of_infix op hop _)
+      have hB : ∀ F', fuelOf b + 6 ≤ F' → pLevel env F' (op.level + 1) (prE b ++ .p .rp :: rest) = some (b, .p .rp :: rest) :=
+        level_of_e5 env b _ (fuelOf b) (fun F' hF' => rp_e5 b hb _ (nolp_closer _ _ (Or.inl rfl)) F' hF') (op.level + 1) (by omega) (by omega)
+          (follow_closer _ _ _ (Or.inl rfl))
+      have hin := read_infix env op hop a b (prE a) (prE b) (.p .rp :: rest) (fuelOf a + fuelOf b + 6)
+        (fun F' hF' => hA F' (by omega)) (fun F' hF' => hB F' (by omega)) (follow_closer _ _ _ (Or.inl rfl))
+        (op.level - 1) 1 (by omega) (Nat.le_refl 1) f (by simp [fuelOf] at hF; omega)
+      have := pE5_lp env f _ (.bin op a b) rest hin
+      simpa [prE, hop] using this
   | .call fn as, h, rest, hn, F, hF => by
     obtain ⟨hp, hv, has⟩ : PlainId fn ∧ env.isVar fn = false ∧ FragL env as := h
     obtain ⟨f, rfl⟩ : ∃ f, F = f + 2 := ⟨F - 2, by simp [fuelOf] at hF; omega⟩
@@ -339,42 +390,68 @@ theorem rp_e5 : ∀ (e : Expr), Frag env e → ∀ (rest : List Tok), NoLp rest 
         | cons e2 es2 =>
           exact level_of_e5 env e _ (fuelOf e) (fun F' hF' => rp_e5 e he _ (nolp_closer _ _ (Or.inr (Or.inl rfl))) F' hF') 1 (by omega) (by omega)
             (follow_closer _ _ _ (Or.inr (Or.inl rfl))) f' (by simp [fuelOf, fuelOfL] at hF; omega)
-      have hM := rp_more es hes rest f' (by simp [fuelOf, fuelOfL] at hF; omega)
+      have hM := rp_more es hes (.p .rp) (Or.inl rfl) rest f' (by simp [fuelOf, fuelOfL] at hF; omega)
       have hArgs : pArgs env (f' + 1) (prE e ++ (prTail es ++ .p .rp :: rest)) = some (e :: es, .p .rp :: rest) := by
         simp only [pArgs, hE, hM]
       cases hpe : prE e with
       | nil => rw [hpe] at hhead; exact absurd hhead (by simp [HeadNotRp])
       | cons t ts =>
         rw [hpe] at hhead hArgs
-        have := pE5_call env (f' + 1) fn t (ts ++ (prTail es ++ .p .rp :: rest)) (e :: es) rest hp hv hhead (by simpa using hArgs)
+        have := pE5_call env (f' + 1) fn t (ts ++ (prTail es ++ .p .rp :: rest)) (e :: es) rest hp hv hhead.1 (by simpa using hArgs)
+        simpa [prE, prArgs_cons, hpe] using this
+  | .list as, h, rest, hn, F, hF => by
+    have has : FragL env as := h
+    obtain ⟨f, rfl⟩ : ∃ f, F = f + 2 := ⟨F - 2, by simp [fuelOf] at hF; omega⟩
+    cases as with
+    | nil => simpa [prE, prArgs] using pE5_list0 env f rest
+    | cons e es =>
+      obtain ⟨he, hes⟩ : Frag env e ∧ FragL env es := has
+      have hhead := prE_head env e he
+      have hE : pLevel env f 1 (prE e ++ (prTail es ++ .p .rb :: rest)) = some (e, prTail es ++ .p .rb :: rest) := by
+        cases es with
+        | nil =>
+          exact level_of_e5 env e _ (fuelOf e) (fun F' hF' => rp_e5 e he _ (nolp_closer _ _ (Or.inr (Or.inr (Or.inl rfl)))) F' hF') 1 (by omega) (by omega)
+            (follow_closer _ _ _ (Or.inr (Or.inr (Or.inl rfl)))) f (by simp [fuelOf, fuelOfL] at hF; omega)
+        | cons e2 es2 =>
+          exact level_of_e5 env e _ (fuelOf e) (fun F' hF' => rp_e5 e he _ (nolp_closer _ _ (Or.inr (Or.inl rfl))) F' hF') 1 (by omega) (by omega)
+            (follow_closer _ _ _ (Or.inr (Or.inl rfl))) f (by simp [fuelOf, fuelOfL] at hF; omega)
+      have hM := rp_more es hes (.p .rb) (Or.inr rfl) rest f (by simp [fuelOf, fuelOfL] at hF; omega)
+      have hnc : ∀ x, prTail es ++ .p .rb :: rest ≠ .p .colon :: x := by
+        intro x
+        cases es <;> simp [prTail]
+      cases hpe : prE e with
+      | nil => rw [hpe] at hhead; exact absurd hhead (by simp [HeadNotRp])
+      | cons t ts =>
+        rw [hpe] at hhead hE
+        have := pE5_list env f t (ts ++ (prTail es ++ .p .rb :: rest)) _ rest e es hhead.2.1 hhead.2.2 (by simpa using hE) hnc hM
         simpa [prE, prArgs_cons, hpe] using this
   | .me, h, _, _, _, _ => absurd h (by simp [Frag])
   | .mcall _ _ _, h, _, _, _, _ => absurd h (by simp [Frag])
-  | .list _, h, _, _, _, _ => absurd h (by simp [Frag])
   | .plist _, h, _, _, _, _ => absurd h (by simp [Frag])
   | .the _ _ _, h, _, _, _, _ => absurd h (by simp [Frag])
   | .key _, h, _, _, _, _ => absurd h (by simp [Frag])
   | .movie _, h, _, _, _, _ => absurd h (by simp [Frag])
   | .oprop _ _, h, _, _, _, _ => absurd h (by simp [Frag])
   | .chunk _ _ _ _, h, _, _, _, _ => absurd h (by simp [Frag])
-/-- `, a, b` up to the closing parenthesis -/
-theorem rp_more : ∀ (es : List Expr), FragL env es → ∀ (rest : List Tok) (F : Nat), fuelOfL es + 1 ≤ F →
-    pMore env F (prTail es ++ .p .rp :: rest) = some (es, .p .rp :: rest)
-  | [], _, rest, F, hF => by
+/-- `, a, b` up to the closing parenthesis / bracket -/
+theorem rp_more : ∀ (es : List Expr), FragL env es → ∀ (c : Tok), (c = .p .rp ∨ c = .p .rb) → ∀ (rest : List Tok) (F : Nat), fuelOfL es + 1 ≤ F →
+    pMore env F (prTail es ++ c :: rest) = some (es, c :: rest)
+  | [], _, c, hc, rest, F, hF => by
     obtain ⟨f, rfl⟩ : ∃ f, F = f + 1 := ⟨F - 1, by omega⟩
-    simp [prTail, pMore]
-  | e :: es, h, rest, F, hF => by
+    rcases hc with hc | hc <;> subst hc <;> simp [prTail, pMore]
+  | e :: es, h, c, hc, rest, F, hF => by
     obtain ⟨he, hes⟩ : Frag env e ∧ FragL env es := h
     obtain ⟨f, rfl⟩ : ∃ f, F = f + 1 := ⟨F - 1, by omega⟩
-    have hE : pLevel env f 1 (prE e ++ (prTail es ++ .p .rp :: rest)) = some (e, prTail es ++ .p .rp :: rest) := by
+    have hcl : Closer c := by rcases hc with hc | hc <;> subst hc <;> simp [Closer]
+    have hE : pLevel env f 1 (prE e ++ (prTail es ++ c :: rest)) = some (e, prTail es ++ c :: rest) := by
       cases es with
       | nil =>
-        exact level_of_e5 env e _ (fuelOf e) (fun F' hF' => rp_e5 e he _ (nolp_closer _ _ (Or.inl rfl)) F' hF') 1 (by omega) (by omega)
-          (follow_closer _ _ _ (Or.inl rfl)) f (by simp [fuelOfL] at hF; omega)
+        exact level_of_e5 env e _ (fuelOf e) (fun F' hF' => rp_e5 e he _ (nolp_closer _ _ hcl) F' hF') 1 (by omega) (by omega)
+          (follow_closer _ _ _ hcl) f (by simp [fuelOfL] at hF; omega)
       | cons e2 es2 =>
         exact level_of_e5 env e _ (fuelOf e) (fun F' hF' => rp_e5 e he _ (nolp_closer _ _ (Or.inr (Or.inl rfl))) F' hF') 1 (by omega) (by omega)
           (follow_closer _ _ _ (Or.inr (Or.inl rfl))) f (by simp [fuelOfL] at hF; omega)
-    have hM := rp_more es hes rest f (by simp [fuelOfL] at hF; omega)
+    have hM := rp_more es hes c hc rest f (by simp [fuelOfL] at hF; omega)
     simp only [prTail, List.cons_append, List.append_assoc, pMore, hE, hM]
 end
 
